@@ -495,7 +495,23 @@ class Program:
                     else:
                         out[kw.arg] = f(kw.value)
                 return out
-            if cname in ("list", "tuple", "set", "frozenset", "sorted"):
+            if cname == "sorted" and node.keywords and len(node.args) == 1:
+                kw_s: T.Dict[str, T.Any] = {}
+                for k_ in node.keywords:
+                    if k_.arg == "key" and isinstance(k_.value, ast.Name) and k_.value.id in ("len", "str", "int", "repr"):
+                        kw_s["key"] = {"len": len, "str": str, "int": int, "repr": repr}[k_.value.id]
+                    elif k_.arg in ("key", "reverse"):
+                        kw_s[k_.arg] = f(k_.value)
+                    else:
+                        raise CannotFold(f"sorted keyword not foldable: {unparse(node)[:60]}")
+                arg_s = f(node.args[0])
+                if isinstance(arg_s, dict):
+                    arg_s = list(arg_s.keys())
+                try:
+                    return sorted(arg_s, **kw_s)
+                except TypeError:
+                    raise CannotFold(f"sorted not foldable: {unparse(node)[:60]}")
+            if cname in ("list", "tuple", "set", "frozenset", "sorted") and not node.keywords:
                 if not node.args:
                     return {"list": [], "tuple": (), "set": set(), "frozenset": frozenset(), "sorted": []}[cname]
                 arg = f(node.args[0])
